@@ -64,9 +64,9 @@ prop("C06", "TestC06", "exploration",
      "validity predicate (sorted within 1e-9, no omitted target closer than the last returned, exact tie-breaks for bit-identical tuples).",
      "Oracle distances are the C07 definitions; completeness is 12/|set| per symbol as documented. Undefined-distance targets may follow defined ones but never take their slots.",
      "property-based testing (rapid) against a reference total order / validity predicate",
-     "1..3 queries, 1..12 targets of width 6..30 derived from one balanced base; non-trivial = tie at the K boundary, completeness "
+     "1..3 queries, 1..12 (one third of cases 13..48, mostly exact copies) targets of width 6..30 derived from one balanced base; non-trivial = tie at the K boundary, completeness "
      "tie-break inside the list, or an undefined-distance target present; distinct = hash of the case",
-     q, t, required_labels=["tie-at-boundary", "boundary-tie-broken-by-completeness", "boundary-tie-broken-by-file-order", "undefined-target-present", "mode:plain", "mode:n", "mode:d", "mode:nd", "table"])
+     q, t, required_labels=["tie-at-boundary", "boundary-tie-broken-by-completeness", "boundary-tie-broken-by-file-order", "undefined-target-present", "mode:plain", "mode:n", "mode:d", "mode:nd", "table", "targets>12"])
 
 q, t = tiers(4, 2500, 16, 30000, floor_q=300, floor_t=3000)
 prop("C07", "TestC07", "exploration",
